@@ -275,7 +275,9 @@ func checkC14() fw.Check {
 
 func runC14Concurrent(c *fw.Ctx, i int) {
 	mixes := [][]string{{"icmp4", "icmp4", "icmp4", "udp4"}, {"udp4", "udp4", "udp6", "icmp6"}, {"syn", "syn", "synP", "icmp4"}, {"sackR", "sackR", "udp4", "syn"},
-		{"udp6", "udp6", "udp6", "icmp6"}, {"synP", "synP", "synPR", "udp6"}}
+		{"udp6", "udp6", "udp6", "icmp6"}, {"synP", "synP", "synPR", "udp6"},
+		// three SACK runs at once whose targets do not permit SACK: all three take the "not supported" exit together
+		{"sackR", "sackR", "sackS", "syn"}}
 	mix := mixes[i%len(mixes)]
 	// the last TTL grows from case to case: whatever a variant sizes by the TTL (payloads, tables) is sized anew while its
 	// siblings run
@@ -301,9 +303,14 @@ func runC14Concurrent(c *fw.Ctx, i int) {
 	}
 	defer env.close()
 	defer env.closePeers()
+	if i%len(mixes) == 6 {
+		for _, p := range env.peers {
+			p.SackPerm = false
+		}
+	}
 	env.modelFor = func(k int, e *simEnv) *pathModel {
 		dist := 4
-		if i%len(mixes) >= 4 {
+		if m := i % len(mixes); m == 4 || m == 5 {
 			dist = last - 1 // a long path: every TTL of the range is probed
 		}
 		m := flowPath(k, e, dist, true, 200*time.Microsecond)
